@@ -446,6 +446,7 @@ Proof.
   - apply AccInv_k_deliver, H.
   - apply AccInv_k_egress, H.
   - eapply AccInv_same; [| | | |exact H]; reflexivity.
+  - eapply AccInv_same; [| | | |exact H]; reflexivity.
 Qed.
 
 (* everything known about a reachable host-with-application *)
@@ -1106,6 +1107,10 @@ Proof.
   - (* ESetIsn *)
     nolog logs. destruct (get_host w h) as [k|] eqn:G; [|exact W].
     apply (WI_konly c v w logs h k (set_isn k v0) (OSetIsn v0)); try assumption; [apply fr_same; reflexivity|].
+    intros o _ Ek _. cbn [ostep]. rewrite Ek. reflexivity.
+  - (* ESetCursor *)
+    nolog logs. destruct (get_host w h) as [k|] eqn:G; [|exact W].
+    apply (WI_konly c v w logs h k (set_cursor k v0) (OSetCursor v0)); try assumption; [apply fr_same; reflexivity|].
     intros o _ Ek _. cbn [ostep]. rewrite Ek. reflexivity.
 Qed.
 
